@@ -460,19 +460,19 @@ func nullBytes(s *Stream) error {
 	// current cursor's character is 'n'
 	s.cursor++
 	if s.char() != 'u' {
-		if err := retryReadNull(s); err != nil {
+		if err := retryReadNull(s, 'u'); err != nil {
 			return err
 		}
 	}
 	s.cursor++
 	if s.char() != 'l' {
-		if err := retryReadNull(s); err != nil {
+		if err := retryReadNull(s, 'l'); err != nil {
 			return err
 		}
 	}
 	s.cursor++
 	if s.char() != 'l' {
-		if err := retryReadNull(s); err != nil {
+		if err := retryReadNull(s, 'l'); err != nil {
 			return err
 		}
 	}
@@ -480,8 +480,11 @@ func nullBytes(s *Stream) error {
 	return nil
 }
 
-func retryReadNull(s *Stream) error {
-	if s.char() == nul && s.read() {
+func retryReadNull(s *Stream, expected byte) error {
+	// the window may end inside the literal: refill, then look at the character again
+	for s.char() == nul && s.read() {
+	}
+	if s.char() == expected {
 		return nil
 	}
 	return errors.ErrInvalidCharacter(s.char(), "null", s.totalOffset())
@@ -491,19 +494,19 @@ func trueBytes(s *Stream) error {
 	// current cursor's character is 't'
 	s.cursor++
 	if s.char() != 'r' {
-		if err := retryReadTrue(s); err != nil {
+		if err := retryReadTrue(s, 'r'); err != nil {
 			return err
 		}
 	}
 	s.cursor++
 	if s.char() != 'u' {
-		if err := retryReadTrue(s); err != nil {
+		if err := retryReadTrue(s, 'u'); err != nil {
 			return err
 		}
 	}
 	s.cursor++
 	if s.char() != 'e' {
-		if err := retryReadTrue(s); err != nil {
+		if err := retryReadTrue(s, 'e'); err != nil {
 			return err
 		}
 	}
@@ -511,8 +514,11 @@ func trueBytes(s *Stream) error {
 	return nil
 }
 
-func retryReadTrue(s *Stream) error {
-	if s.char() == nul && s.read() {
+func retryReadTrue(s *Stream, expected byte) error {
+	// the window may end inside the literal: refill, then look at the character again
+	for s.char() == nul && s.read() {
+	}
+	if s.char() == expected {
 		return nil
 	}
 	return errors.ErrInvalidCharacter(s.char(), "bool(true)", s.totalOffset())
@@ -522,25 +528,25 @@ func falseBytes(s *Stream) error {
 	// current cursor's character is 'f'
 	s.cursor++
 	if s.char() != 'a' {
-		if err := retryReadFalse(s); err != nil {
+		if err := retryReadFalse(s, 'a'); err != nil {
 			return err
 		}
 	}
 	s.cursor++
 	if s.char() != 'l' {
-		if err := retryReadFalse(s); err != nil {
+		if err := retryReadFalse(s, 'l'); err != nil {
 			return err
 		}
 	}
 	s.cursor++
 	if s.char() != 's' {
-		if err := retryReadFalse(s); err != nil {
+		if err := retryReadFalse(s, 's'); err != nil {
 			return err
 		}
 	}
 	s.cursor++
 	if s.char() != 'e' {
-		if err := retryReadFalse(s); err != nil {
+		if err := retryReadFalse(s, 'e'); err != nil {
 			return err
 		}
 	}
@@ -548,8 +554,11 @@ func falseBytes(s *Stream) error {
 	return nil
 }
 
-func retryReadFalse(s *Stream) error {
-	if s.char() == nul && s.read() {
+func retryReadFalse(s *Stream, expected byte) error {
+	// the window may end inside the literal: refill, then look at the character again
+	for s.char() == nul && s.read() {
+	}
+	if s.char() == expected {
 		return nil
 	}
 	return errors.ErrInvalidCharacter(s.char(), "bool(false)", s.totalOffset())
